@@ -336,7 +336,12 @@ func ToDateTime(ctx *expr.Context, input system.Collection, args ...expr.Express
 		}
 		result, err := system.ParseDateTime(string(value))
 		if err != nil {
-			return system.Collection{}, nil
+			// A partial value in string form has no trailing 'T' ("2020-01").
+			date, err := system.ParseDate(string(value))
+			if err != nil {
+				return system.Collection{}, nil
+			}
+			return system.Collection{date.ToDateTime()}, nil
 		}
 		return system.Collection{result}, nil
 	}
